@@ -41,8 +41,8 @@ def handle (j : Json) : IO Unit := do
       let gotErr := jbool (jget o "err")
       let a := sortStr next == got && err == gotErr
       -- spec on the implementation's own before/after: `cur` here is the model's, so use the previous observation instead
-      let s := guardOk (jget o "guard") && consistent got (jnat (jget o "stats_models"))
-      (next, agree && a, spec && s, if (!a || !s) && note == "" then s!"round {cls} {names}: registry {got} err {gotErr} stats {jnat (jget o "stats_models")}; model {sortStr next} err {err}" else note)
+      let s := guardOk (jget o "guard") && consistent got (jnat (jget o "stats_models")) && lookupMatchesListing got (jstrList (jget o "routable"))
+      (next, agree && a, spec && s, if (!a || !s) && note == "" then s!"round {cls} {names}: registry {got} routable {jstrList (jget o "routable")} err {gotErr} stats {jnat (jget o "stats_models")}; model {sortStr next} err {err}" else note)
     let (_, agree, spec1, note) := (rounds.zip obs).foldl step ([], true, true, "")
     -- errorKeeps on consecutive observations of the implementation
     let pairs := obs.zip (obs.drop 1)
@@ -69,6 +69,14 @@ def handle (j : Json) : IO Unit := do
     let ok := guardOk (jget impl "guard")
     emit case true ok (s!"xlate.{jstr (jget j "how")}." ++ (if jbool (jget j "stream") then "stream" else "resp"))
       (if ok then "" else "translator-panic-or-hang") (if ok then "" else s!"{(jget impl "guard").compress} {jstr (jget impl "outcome")}")
+  | "relay" =>
+    if jstr (jget impl "start_err") != "" then emit case false true "start-error" "" (jstr (jget impl "start_err")); return
+    -- the request ended (whatever the answer) and the stack still serves the next request
+    let ended := jstr (jget impl "err") != "timeout"
+    let alive := jnat (jget impl "probe_status") == 200
+    emit case true (ended && alive) s!"relay.{jstr (jget j "route")}.{if jbool (jget j "stream") then "stream" else "nonstream"}.{jstr (jget j "how")}"
+      (if !ended then "request-hangs-on-backend-answer" else if !alive then "stack-dead-after-backend-answer" else "")
+      (if ended && alive then "" else s!"{jstr (jget j "engine")} {jstr (jget j "route")} stream={jbool (jget j "stream")} backend status {jnat (jget j "status")} body {jstr (jget j "how")} ({jnat (jget j "body_len")} B): client err '{jstr (jget impl "err")}' status {jnat (jget impl "client_status")} after {jnat (jget impl "ms")} ms; follow-up request status {jnat (jget impl "probe_status")} err '{jstr (jget impl "probe_err")}'")
   | k => emit case false true "unknown-kind" "" k
 
 def main : IO Unit := do forLines (← IO.getStdin) handle
